@@ -54,6 +54,7 @@ TxAlphabet ==
   \cup { FeeTx(<<[t |-> "BReg", owner |-> "A3", moniker |-> "m", name |-> "n"], BRec("A3", st.bcn.next), BBuy("A3", st.bcn.next, 1), BRec("A2", st.bcn.next)>>) }
   \cup { GovTxFor(st, "wrk", Presets[i]) : i \in DOMAIN Presets }
   \cup { GovTxFor(st, "bcn", Presets[i]) : i \in DOMAIN Presets }
+  \cup { GovTxFailingFor(st, "wrk", Presets[1]) }
 
 TotalRecs == SeqSum([i \in DOMAIN st.aux.ever.wrk |-> Len(st.aux.ever.wrk[i])]) + SeqSum([i \in DOMAIN st.aux.ever.bcn |-> Len(st.aux.ever.bcn[i])])
 
